@@ -101,6 +101,9 @@ class SymArray(np.ndarray):
     __hash__ = None
 
 
+LAST_EIGH = []      # (w, V, M) of every symbolic eigh call of the current path (read by C02)
+
+
 class _Linalg:
     def __init__(self, shim):
         self.shim = shim
@@ -128,6 +131,7 @@ class _Linalg:
         for i in range(n - 1):
             eng.assume(w[i].t <= w[i + 1].t, 'linalg')
         _record([w, V], M)
+        LAST_EIGH.append((w, V, M))
         return w.view(SymArray), V
 
     def qr(self, A, mode='reduced'):
